@@ -169,6 +169,7 @@ fn c04_two_commits(dir: &str) -> bool {
     let _ = std::fs::remove_dir_all(dir);
     let db: Db = Nomt::open(opts(dir, true)).unwrap();
     for round in 0..2u8 {
+        eprintln!("verif-commit-begin {}", round);
         let mut w = vec![];
         for i in 0..100u8 {
             w.push((key(i.wrapping_mul(2).wrapping_add(round)), Some(vec![round; 16])));
@@ -261,6 +262,20 @@ fn c12_handback_session(dir: &str) -> bool {
     println!("deferred={} state_unchanged_by_deferral={} retried_commit={} new_state={} rollback(1)_restores_previous_state={} ({:?})",
         deferred, unchanged, committed, after, restored, rb.map_err(|e| e.to_string()));
     deferred && unchanged && committed && after && restored
+}
+
+/// C14: failing branch-node (bbn) page writes during a commit that also stores a value spanning hundreds of
+/// overflow pages: every submitted write's completion has to be received and checked.
+fn c14_bbn_write_fails_large(dir: &str) -> bool {
+    let _ = std::fs::remove_dir_all(dir);
+    let db: Db = Nomt::open(opts(dir, false)).unwrap();
+    commit(&db, vec![(key(1), Some(vec![1]))]);
+    nomt::verif_api::io_faults::fail_writes_to(Some("/bbn"));
+    let s = db.begin_session(SessionParams::default());
+    let r = s.finish(vec![(key(9), KeyReadWrite::Write(Some(vec![5u8; 1 << 20])))]).unwrap().commit(&db);
+    nomt::verif_api::io_faults::fail_writes_to(None);
+    println!("commit of a 1 MiB value with failing bbn writes returned {:?}, poisoned={}", r.as_ref().map(|_| ()).map_err(|e| e.to_string()), db.is_poisoned());
+    r.is_err() && db.is_poisoned()
 }
 
 /// C14 (driver): build the database that `c14_commit_for_injection` commits to.
@@ -419,6 +434,7 @@ fn main() {
         "c20_fresh_and_reopen" => c20_fresh_and_reopen(dir),
         "c20_try_open" => c20_try_open(dir),
         "c14_prepare" => c14_prepare(dir),
+        "c14_bbn_write_fails_large" => c14_bbn_write_fails_large(dir),
         "c12_handback_session" => c12_handback_session(dir),
         "c04_rollover" => c04_rollover(dir),
         "c14_commit_for_injection" => c14_commit_for_injection(dir),
